@@ -9,6 +9,7 @@ capacity found in the source (`S4V.Gen.Consts.CHANNEL_CAPACITY`).
 -/
 import S4V.Props.CoordSpec
 import S4V.Gen.Consts
+import S4V.Gen.Coord
 
 namespace S4V.Props.C06
 open S4V.Model.Coord S4V.Props.CoordSpec S4V.Gen.Consts
@@ -65,5 +66,24 @@ theorem C07_isolation {healthy : Nat → Bool} {scripts : List (List Datum)} {b 
     b.core.printed.filter (fun p => healthy p.1) =
       merge ((specMsgs scripts).mapIdx (fun i l => if healthy i then l else [])) :=
   b_isolation healthy h hf
+
+/-- **C01 (tie to the source).** The model's `merge` takes, at every step, the FIRST source (in source = PathId
+order) whose head carries the minimal instant. That is the behaviour of the source's
+`map_pathid_datum.iter_mut().min_by(|x, y| x.1.0.dt().cmp(y.1.0.dt()))` exactly when the three facts below hold;
+they are re-read from `processing_loop` on every run (`gen/gen_coord.py`; any other container, picker or comparator
+makes the translation fail): the pending map iterates in PathId order, `min_by` returns the first minimum, and the
+comparator orders whole instants (nanoseconds) — not a truncation of them (seeded change C01-a compared
+`timestamp_micros()`). -/
+theorem C01_pick_matches_source :
+    S4V.Gen.Coord.PENDING_IN_PATHID_ORDER = true ∧ S4V.Gen.Coord.PICK_FIRST_MINIMUM = true ∧
+    S4V.Gen.Coord.COMPARES_FULL_INSTANTS = true := by decide
+
+/-- why the comparator must see whole instants: a merge that compares instants truncated to microseconds
+(`dt / 1000`) prints two sources' messages out of order when they differ by less than a microsecond -/
+theorem truncated_compare_misorders :
+    let a : Msg := ⟨1000000999, 0⟩
+    let b : Msg := ⟨1000000001, 1⟩
+    (merge [[a], [b]]).map (fun p => p.2.dt) = [1000000001, 1000000999] ∧
+    (merge [[⟨a.dt / 1000, 0⟩], [⟨b.dt / 1000, 1⟩]]).map (fun p => p.1) = [0, 1] := by decide
 
 end S4V.Props.C06
